@@ -447,6 +447,21 @@ FILL_NOTE = (" Translator tie (harness/py2coq_fill.py; OrderBook.change_order_vo
 for _p in ("C04", "C08"):
     CLAIMS[_p]["ties"] += (_fill_tie,)
     CLAIMS[_p]["text"] += FILL_NOTE
+
+
+def _add_tie():
+    import translated
+    return translated.add_tie()
+
+
+ADD_NOTE = (" Translator tie (harness/py2coq_add.py; OrderBook.add in coq/theories/AddPy.v): Market._add_order is REGENERATED from /repo's source on every run, statement by "
+            "statement with the mutable fields of the order tracked symbolically, and coq/translated/AddC04Proofs.v is re-checked against the generated text: for a fresh order "
+            "it IS the model's add_order - an order of another market is refused; an off-grid limit price becomes level x tick with the level of the order's side; the order "
+            "gets the next id (ids consecutive) and the book's time, enters its side at its priority, mid and market price are refreshed, the step's count of buy or sell "
+            "orders grows by one, and exactly one record carrying the order as accepted is reported.")
+for _p in ("C04", "C19"):
+    CLAIMS[_p]["ties"] += (_add_tie,)
+    CLAIMS[_p]["text"] += ADD_NOTE
 CLAIMS["C06"]["text"] += TICK_NOTE
 CLAIMS["C06"]["text"] += (" Translator tie (harness/py2coq_series.py): Market._fill_until is REGENERATED from /repo's source on every run - which series is assigned, which one is "
                           "extended, whose length is measured and the padding value are read from each statement - and coq/translated/SeriesC06Proofs.v is re-checked against the "
